@@ -559,7 +559,7 @@ EXTRA = {
            'hazards).  R7i: the interp property of the interpolating '
            'operators over all per-axis tuples; R4 a second out-of-place '
            'evaluation of a sampling wrapper shares no memory with the '
-           'first result.',
+           'first result; R1s grids with a single-node axis.',
     'C16': ' Mixed grow / shrink shapes in the n-d rule; _offset_from_spaces '
            'evaluated on 81 two-dimensional pairs with signed offsets; axes '
            'that keep their size with non-zero offset.  R2s: zero, constant '
